@@ -314,12 +314,99 @@ def correspond(ctx, rows, const, tag):
     return len(cases)
 
 
+ARGS_IMPORTS = "From Aelys Require Import Extracted.HeapConsts Model.HeapArgs."
+CLI_PROGRAM = """// four manual buffers of 100000 values (3.2 MB) and a vec grown to 200000 elements: cannot fit a 2 MB limit
+let a = alloc(100000)
+let b = alloc(100000)
+let c = alloc(100000)
+let d = alloc(100000)
+let v = Vec<Int>[]
+let mut i = 0
+while i < 200000 {
+    v.push(i)
+    i = i + 1
+}
+println("no error")
+println(v.len())
+"""
+CLI_FLAGS = [["-ae.max-heap=2M"], ["-ae.max-heap=2M", "-ae.trusted=true"], ["--ae-trusted=true", "--ae-max-heap=2M"],
+             ["-ae.allow-fs=true", "--ae-max-heap=2097152", "--deny-caps=net", "--dev"], ["-ae.trusted=true", "-ae.max-heap=64M", "-ae.max-heap=2M", "--allow-caps=fs"]]
+
+
+def cli_build(ctx):
+    tag = vlib.repo_tag()
+    target = os.path.join(vlib.CACHE, "target", tag + "-cli")          # shared with C03/C08/C11
+    with vlib.Lock("cargo-" + tag + "-cli"):
+        rc, out = vlib.sh(["cargo", "build", "--offline", "-q", "-j", "6", "-p", "aelys-cli"], cwd=vlib.REPO,
+                          env={"CARGO_TARGET_DIR": target, "CARGO_NET_OFFLINE": "true", "RUSTFLAGS": "-Awarnings"}, timeout=2400)
+    p = os.path.join(target, "debug", "aelys-cli")
+    if rc != 0 or not os.path.exists(p):
+        ctx.log("cli build failed:\n" + out[-2000:])
+        return None
+    return p
+
+
+def args_route(ctx, hx):
+    """from command-line flags to the limit in force: parse_vm_args on generated flag lists against Model/HeapArgs.v, and the CLI itself
+    on a program that cannot fit the limit, with flag combinations around -ae.max-heap"""
+    rc, out = vlib.sh([hx, "args", "--seed", str(ctx.seed), "--random", "300" if ctx.tier == "quick" else "6000"], timeout=300)
+    rows = [l.split("\t") for l in out.splitlines() if l.startswith("ARGS\t")]
+    if rc != 0 or len(rows) < 100:
+        ctx.broken.append("hx_heaplimit args failed")
+        ctx.log(out[-1500:])
+        return
+    stats = {"lists": len(rows), "accepted": 0, "with_max_heap_accepted": 0, "with_trusted_and_max_heap": 0}
+    for f in rows:
+        ok = f[3].startswith("[1;")
+        stats["accepted"] += ok
+        stats["with_max_heap_accepted"] += ok and "FMaxHeap" in f[2]
+        stats["with_trusted_and_max_heap"] += ok and "FMaxHeap" in f[2] and "FTrusted true" in f[2]
+        # direct oracle, no model: the limit of an accepted command line is that of its last max-heap flag
+        sizes = re.findall(r"FMaxHeap \(Some (\d+)%N\)", f[2])
+        if ok and sizes and int(f[3].split(";")[1]) != int(sizes[-1]):
+            ctx.violation("flags-limit-not-in-force", f"`{f[4]}`: the parsed configuration has max_heap_bytes = {int(f[3].split(';')[1])}, the flags say {sizes[-1]}",
+                          {"args": f[4], "parsed_max_heap_bytes": int(f[3].split(";")[1]), "configured": int(sizes[-1]), "replay_cmd": f"hx_heaplimit args --seed {ctx.seed}"})
+    cases = [(f"({f[2]})", f[3]) for f in rows]
+    fails, err = vlib.coq_eval_cases("c10args", ARGS_IMPORTS, "args_obs", "args_eqb", cases, shard=400, timeout=600)
+    if err:
+        ctx.broken.append("correspondence C10 (flags): model evaluation failed")
+        ctx.log(err[-2000:])
+    if fails:
+        ctx.broken.append(f"correspondence C10 (flags): model and parse_vm_args differ on {len(fails)} of {len(cases)} flag lists")
+        for i in fails[:2]:
+            ctx.violation("model-vs-implementation:flags", "the flag model does not predict the parsed configuration",
+                          {"args": rows[i][4], "flags": rows[i][2], "parsed [ok; max; fs; net; exec; hot]": rows[i][3]})
+    ctx.cov["flags_route"] = stats
+    if min(stats["with_max_heap_accepted"], stats["with_trusted_and_max_heap"]) < 5:
+        ctx.broken.append("generator audit C10 (flags): too few accepted flag lists with max-heap / with trusted and max-heap")
+    ctx.cov["model_evaluations"] = ctx.cov.get("model_evaluations", 0)
+    # the CLI itself
+    cli = cli_build(ctx)
+    if cli is None:
+        ctx.broken.append("cli: aelys-cli does not build from the current tree")
+        return
+    d = os.path.join(vlib.CACHE, "c10_cli_" + vlib.repo_tag())
+    os.makedirs(d, exist_ok=True)
+    prog = os.path.join(d, "limit.aelys")
+    open(prog, "w").write(CLI_PROGRAM)
+    runs = []
+    for flags in CLI_FLAGS:
+        rc, out = vlib.sh([cli, "run"] + flags + [prog], timeout=120)
+        refused = "out of memory" in out and "no error" not in out
+        runs.append({"flags": flags, "exit": rc, "refused": refused})
+        if not refused:
+            ctx.violation("cli-limit-not-in-force", f"`aelys-cli run {' '.join(flags)} limit.aelys` (3.2 MB of manual buffers + a 1.6 MB vec under a 2 MB limit) did not "
+                          f"end in out of memory: exit {rc}, output {out.strip()[:120]!r}", {"flags": flags, "program": CLI_PROGRAM, "exit": rc, "output": out[-600:]})
+    ctx.cov["flags_route"]["cli_runs"] = runs
+    return len(cases)
+
+
 def run(ctx):
     ctx.level = "proof"
     ctx.cov["trusted_base"] = TRUSTED
     ctx.assumptions = ["the transition model is the code: checked by the child-process tie below",
                        "what the host allocator does with a request is outside the model (level: partial)"]
-    proved = ctx.prove("C10", extracted=["HeapConsts", "HeapSites", "HeapEstimator"])
+    proved = ctx.prove("C10", extracted=["HeapConsts", "HeapSites", "HeapEstimator", "HeapArgs"])
     if ctx.tier == "thorough" and proved:
         ctx.coqchk("C10")
     ok, out = vlib.coq_make(["Base/CaseCheck.vo", "Model/HeapLimitObs.vo"])
@@ -327,6 +414,7 @@ def run(ctx):
         ctx.broken.append("coq: model files for the C10 tie do not build")
         ctx.log(out[-2000:])
         return
+    flags_replay = False
     profiles = ["dev"] if ctx.tier == "quick" else ["dev", "release"]
     n_random = 400 if ctx.tier == "quick" else 8000
     total, tied, distinct, stats = 0, 0, set(), {}
@@ -346,6 +434,9 @@ def run(ctx):
             rp = json.load(open(ctx.replay_file)).get("replay", {})
             if "op" in rp:
                 cmd = [paths["hx_heaplimit"], "--cases", f"{rp['op']}:{rp['size']}:{rp['limit']}:{rp['opt']}"]
+            elif "args" in rp or "flags" in rp:
+                flags_replay = True         # a finding of the flags route: that route is re-run as a whole (seeded generator, fixed CLI runs)
+                cmd = [paths["hx_heaplimit"], "--cases", "manual_alloc:1:1048576:0"]
         # corpus first: explicit cases, one per line `op:size:limit:opt`
         corpus = []
         for f in sorted(glob.glob(os.path.join(vlib.VERIF, "corpus", "C10", "*.cases"))):
@@ -400,6 +491,12 @@ def run(ctx):
         tied += correspond(ctx, rows, const, "c10" + prof)
         ctx.add_samples([{"op": r["op"], "size": r["size"], "limit": r["limit"], "opt": r["opt"], "kind": KIND.get(r["kind"]), "accounting_delta": r["delta"]}
                          for r in rows[:2] + rows[len(rows) // 2: len(rows) // 2 + 2]])
+    if not ctx.replay_file or flags_replay:
+        ok, out = vlib.coq_make(["Model/HeapArgs.vo"])
+        if not ok:
+            ctx.broken.append("coq: Model/HeapArgs.vo does not build")
+        else:
+            tied += args_route(ctx, paths["hx_heaplimit"]) or 0
     # generator audit: cases per operation x outcome kind, per size class, per limit; every modelled operation must be
     # reached with every outcome kind it can have
     ctx.cov["case_counts"] = {"by_op_and_kind": {k: v for k, v in sorted(audit.items())},
